@@ -1710,17 +1710,38 @@ impl UnifiedIncomingViewingKey {
         loop {
             match self.address(j, request) {
                 Ok(ua) => return Ok((ua, j)),
-                Err(AddressGenerationError::InvalidSaplingDiversifierIndex(_)) => {
-                    if j.increment().is_err() {
-                        return Err(AddressGenerationError::DiversifierSpaceExhausted);
-                    }
-                }
+                Err(AddressGenerationError::InvalidSaplingDiversifierIndex(_)) => {}
+                // An allowed Sapling receiver that cannot be derived at this index is left out
+                // of the address. When that leaves no shielded receiver at all, no address
+                // exists at this index, but a later index can still produce one.
+                Err(AddressGenerationError::ShieldedReceiverRequired)
+                    if self.allowed_sapling_receiver_underivable(j, request) => {}
                 Err(other) => return Err(other),
+            }
+
+            if j.increment().is_err() {
+                return Err(AddressGenerationError::DiversifierSpaceExhausted);
             }
         }
 
         #[cfg(not(feature = "sapling"))]
         self.address(j, request).map(|ua| (ua, j))
+    }
+
+    /// Returns `true` if `request` allows (without requiring) a Sapling receiver that this key
+    /// cannot derive at diversifier index `j`.
+    #[cfg(feature = "sapling")]
+    fn allowed_sapling_receiver_underivable(
+        &self,
+        j: DiversifierIndex,
+        request: UnifiedAddressRequest,
+    ) -> bool {
+        self.receiver_requirements(request)
+            .is_ok_and(|req| req.sapling == Allow)
+            && self
+                .sapling
+                .as_ref()
+                .is_some_and(|divk| divk.address_at(j).is_none())
     }
 
     /// Find the Unified Address corresponding to the smallest valid diversifier index, along with
